@@ -86,8 +86,11 @@ def gen(rng, tier):
             feats = G.gtf_annotation(rng, {"max_genes": 2, "explicit_tx": rng.random() < 0.5, "explicit_gene": rng.random() < 0.5})
         steps = [{"op": "create", "feats": feats, "form": "path"}]
     steps.append({"op": rng.choice(["reopen", "restart", "none"])})
-    return {"fmt": fmt, "id_spec": spec, "steps": steps, "qseed": rng.getrandbits(32),
-            "fault_profile": rng.random() < 0.1, "fault_seed": rng.getrandbits(32)}
+    memory = fmt == "gff3" and rng.random() < 0.15
+    if memory:
+        steps = [st for st in steps if st["op"] not in ("reopen", "restart", "foreign")]
+    return {"fmt": fmt, "id_spec": spec, "steps": steps, "qseed": rng.getrandbits(32), "memory": memory,
+            "fault_profile": rng.random() < (0.1 if not memory else 0.5), "fault_seed": rng.getrandbits(32)}
 
 
 def run(case):
@@ -209,7 +212,9 @@ def run(case):
             if spec is not None:
                 req["id_spec"] = spec
             if k == "create":
-                req["db"] = "a.db"
+                req["db"] = ":memory:" if case.get("memory") else "a.db"
+                if case.get("memory"):
+                    probes["memory_database"] = 1
             else:
                 kw["make_backup"] = False
             pre = model.clone()
@@ -283,7 +288,7 @@ def run(case):
         # reopen or restart and a further update - keys must continue and never be reused
         from checks import c10
         steps = [dict(s, strategy="create_unique") for s in case["steps"] if s["op"] in ("create", "update", "reopen", "restart", "gc")]
-        vs, st2, pr2 = c10.fault_profile(steps, {"id_spec": spec}, case["fault_seed"], "C04.faulted")
+        vs, st2, pr2 = c10.fault_profile(steps, {"id_spec": spec, "memory": case.get("memory")}, case["fault_seed"], "C04.faulted")
         V.extend(vs)
         c10._merge_stats(out["stats"], st2)
         for k2, v2 in pr2.items():
